@@ -1,5 +1,6 @@
 SPECIFICATION Spec
 CONSTANTS
+  Variant = "fixed"
   Insts = {1, 2}
   Ups = {1, 2}
   Horizon = 100
